@@ -1,0 +1,49 @@
+//go:build verif
+
+// Contracts for the govc verifier (see /verif/DESIGN.md). Comment-only file: with the
+// "verif" build tag off it is not compiled; with it on it contains only the package clause.
+
+package cri
+
+//@ uf hostOf(string) string
+//@ pure alias(host string) string = (host == "docker.io" || host == "registry-1.docker.io") ? "index.docker.io" : host
+
+// ParseAuth is verified in service/resolver; here its contract is used.
+//@ func service/resolver.ParseAuth
+//@   trusted
+//@   ensures auth == nil ==> result0 == "" && result1 == "" && err == nil
+//@   ensures auth != nil && auth.ServerAddress != "" && hostOf(auth.ServerAddress) != host ==> result0 == "" && result1 == ""
+//@   ensures err != nil ==> result0 == "" && result1 == ""
+
+//@ type instrumentedService
+//@   guards[C18] configMu: config
+//@   invariant[C18] configMu: self.config != nil
+
+// credentials: offered only for the exact reference that is currently recorded, never for a server address that
+// differs from the (aliased) host being contacted.
+//@ func (in *instrumentedService) credentials
+//@   props C18
+//@   ensures[C18] !locked(refspec.String() in in.config) ==> result0 == "" && result1 == "" && err == nil
+//@   ensures[C18] (result0 != "" || result1 != "") ==> locked(refspec.String() in in.config) && locked(in.config[refspec.String()]) != nil && (locked(in.config[refspec.String()]).ServerAddress == "" || hostOf(locked(in.config[refspec.String()]).ServerAddress) == alias(host))
+// PullImage records the auth of the most recent pull request for the parsed reference (latest wins, including nil);
+// RemoveImage forgets it. Other references are untouched (whole-view frame).
+//@ ghost delegated int
+//@ func interface k8s.io/cri-api/pkg/apis/runtime/v1.ImageServiceClient.PullImage
+//@   modifies delegated
+//@   ensures delegated == old(delegated) + 1
+//@ func interface k8s.io/cri-api/pkg/apis/runtime/v1.ImageServiceClient.RemoveImage
+//@   modifies delegated
+//@   ensures delegated == old(delegated) + 1
+//@ func (in *instrumentedService) PullImage
+//@   props C18
+//@   requires r != nil
+//@   ensures[C18] delegated != old(delegated) ==> refspec.String() in in.config && in.config[refspec.String()] == r.GetAuth()
+//@   ensures[C18] gocount() == 0
+//@   ensures[C18] didlock() ==> refspec.String() in in.config && in.config[refspec.String()] == r.GetAuth()
+//@   ensures[C18] didlock() ==> (forall k string :: k != refspec.String() ==> ((k in in.config <==> locked(k in in.config)) && in.config[k] == locked(in.config[k])))
+//@ func (in *instrumentedService) RemoveImage
+//@   props C18
+//@   requires r != nil
+//@   ensures[C18] delegated != old(delegated) ==> !(refspec.String() in in.config)
+//@   ensures[C18] didlock() ==> !(refspec.String() in in.config)
+//@   ensures[C18] didlock() ==> (forall k string :: k != refspec.String() ==> ((k in in.config <==> locked(k in in.config)) && in.config[k] == locked(in.config[k])))
